@@ -10,14 +10,16 @@ from .lib.mir import AnchorLost
 CONFIGS_QUICK = ["A"]
 CONFIGS_THOROUGH = ["A", "R"]
 TECHNIQUE = "vocabulary tables read from the compiled constants and from the derive(Serialize) output (the keys serde really writes) vs the OpenAPI 3.1 / JSON Schema 2020-12 fixed fields; sibling-family rule over IntoHandler impls; exhaustiveness over authentication fangs"
-LEVEL_TEXT = ('Decides clauses C15-a/b/c/d: every SchemaType::NAME is a JSON Schema 2020-12 type name (or empty = any); the keys each OpenAPI object actually '
-              'serializes (read from the derive output, renames applied) are fixed fields of that object in OpenAPI 3.1, required fields are written unconditionally,'
-              ' and keywords the meta-schema types as number/boolean/string/array carry a Rust type of that kind; ParameterKind is within {path,query,header,cookie};'
-              ' Operations::register accepts exactly the lower-case Path Item methods gen_openapi_doc produces; path parameters are required; each IntoHandler impl '
+LEVEL_TEXT = ('Decides clauses C15-a..e: every SchemaType::NAME is a JSON Schema 2020-12 type name (or empty = any); the keys each OpenAPI object actually serializes'
+              ' (read from the derive output, renames applied) are fixed fields of that object in OpenAPI 3.1, required fields are written unconditionally, and '
+              'keywords the meta-schema types as number/boolean/string/array carry a Rust type of that kind; ParameterKind is within {path,query,header,cookie}; '
+              'Operations::register accepts exactly the lower-case Path Item methods gen_openapi_doc produces; path parameters are required; each IntoHandler impl '
               "documents exactly its p path parameters and q request items, in signature order, on top of the body's responses; gen_openapi_doc names the path "
               'parameters from the route template in order and registers every referenced schema and security scheme component; every builtin fang that can answer '
               '401 overrides openapi_map_operation with a security requirement; the route table the document is generated from only ever accumulates (registering or '
-              'mounting onto an existing route extends its method map, never replaces it). Decides these clauses, not document <=> application for all applications.')
+              'mounting onto an existing route extends its method map, never replaces it); the builder methods whose calls C15-b counts (Operation::param, '
+              'Schema::property/optional, Paths::at) add their element unconditionally on every call. Decides these clauses, not document <=> application for all '
+              'applications.')
 
 JSON_SCHEMA_TYPES = {"string", "number", "integer", "boolean", "array", "object", "null", ""}
 FIXED = {
@@ -54,6 +56,7 @@ def run(ck, progs):
         ck.guard("C15-b SIBLING operations", lambda: c15b(ck, prog))
         ck.guard("C15-c EXHAUSTIVE security", lambda: c15c(ck, prog))
         ck.guard("C15-d PAIR route table", lambda: c15d(ck, prog))
+        ck.guard("C15-e MUSTPASS accumulators", lambda: c15e(ck, prog))
     ck.config = None
 
 
@@ -293,3 +296,34 @@ def c15d(ck, prog):
               "" if ok else "%s updates the route table with %s: an entry that already exists for the route (another method registered earlier, a mount landing on it) is replaced, and the replaced operations vanish from the generated document although they are still served" % (
                   nm, ", ".join(sorted({c.name for c in repl})) or "entry() without and_modify/or_insert"),
               how="routes.entry(route).and_modify(|m| m.%s(..)).or_insert_with(..)" % adder.split("::")[-1].rstrip("$"))
+
+
+ACCUMULATORS = [
+    # (method regex, field the element goes to, why every call must add an element)
+    (r"^ohkami_openapi::paths::Operation::param$", "parameters", "path parameters are positional: they are created unnamed and named later from the route template, one per `:param` segment"),
+    (r"^ohkami_openapi::schema::Schema::<ohkami_openapi::schema::Type::object>::property$", "properties", "one schema property per struct field"),
+    (r"^ohkami_openapi::schema::Schema::<ohkami_openapi::schema::Type::object>::property$", "required", "a non-optional field is listed as required"),
+    (r"^ohkami_openapi::schema::Schema::<ohkami_openapi::schema::Type::object>::optional$", "properties", "one schema property per struct field"),
+    (r"^ohkami_openapi::paths::Paths::at$", "0", "one path item per route"),
+]
+
+
+def c15e(ck, prog):
+    """C15-b counts the `.param(..)` / `.property(..)` calls of the generators; the count is what the document shows only if
+    each call adds its element on every path (no de-duplication, no early return)."""
+    R = "C15-e MUSTPASS accumulators"
+    for rx, field, why in ACCUMULATORS:
+        f = prog.one(rx)
+        adds = [c for c in f.calls() if c.name in ("push", "insert", "push_back") and c.args and re.search(r"arg1(\.\w+)*\.%s\b" % re.escape(field), decision.describe_deep(f, c.args[0], 4))]
+        ok = len(adds) == 1
+        why_not = "%d growth site(s) on `%s`" % (len(adds), field)
+        if ok:
+            a = adds[0]
+            cond = [fa for fa in guards.facts_at(f, prog, a.bb) if fa.kind in ("cmp", "boolcall", "boolplace", "boolphi", "variant", "int")]
+            rets = [b for b in f.live_blocks() if f.blocks[b]["t"]["k"] == "return"]
+            ok = not cond and all(f.dominates(a.bb, r) for r in rets)
+            why_not = "the element is added under %d condition(s) / not on every path to the return" % len(cond)
+        ck.ob(R, "%s:%s" % (f.key.split("::", 1)[1][-50:], field), ok, f.loc(adds[0].sp if adds else None),
+              "" if ok else "%s does not add to `%s` on every call (%s): %s -- a skipped element leaves the document short of what the application does "
+              "(two path parameters with equal schemas are equal when added, so a de-duplicating `param` drops the second one)" % (f.key, field, why_not, why),
+              how="one unconditional %s on self.%s dominating the return" % (adds[0].name if adds else "push", field))
